@@ -174,3 +174,28 @@ def disconnect(*objs):
             med.disconnect()
         except Exception:
             pass
+
+
+def sha_mismatches(tree, paths):
+    """Paths (files) of a revision tree whose stored bytes do not hash to the text_sha1 their inventory entry records."""
+    bad = []
+    for path in paths:
+        try:
+            if tree.kind(path) != "file":
+                continue
+            data = tree.get_file_text(path)
+            want = tree.get_file_sha1(path)
+        except Exception:
+            continue
+        if want is not None and hashlib.sha1(data).hexdigest().encode() != want:
+            bad.append(path)
+    return bad
+
+
+def corruption_kind(stored, original):
+    """Name the way `stored` differs from `original`: the known bzrformats RabinGroupCompressor defect turns a NUL that
+    starts an insert after a copy into b'd' (same length, every differing byte is 0x00 -> 0x64); anything else is unexplained."""
+    if isinstance(stored, bytes) and isinstance(original, bytes) and len(stored) == len(original) and stored != original:
+        if all(o == 0 and s == 0x64 for s, o in zip(stored, original) if s != o):
+            return "nul-byte-read-back-as-d"
+    return "sha1-mismatch"
